@@ -149,6 +149,48 @@ claim('C07', 'other',
       'parameter. Not decided: inverse accuracy and monotonicity (numeric).',
       TRUST + ' Float rounding is modelled only as: the midpoint may equal either bound.', 'DESIGN.md section 3 C07')
 
+claim('C08', 'other',
+      'abstract interpretation with min/max modelled as selectors (candidate-set extraction), polynomial identities for the closed-form '
+      'cubic extrema, hooked root finder, no-fork collection mode for Arc.bbox, slot-protocol tables',
+      'Decides: in bezier_real_minmax the closed-form candidates are exactly the roots of the coordinate derivative, delta is a positive '
+      'multiple of its discriminant, on every label path every root that is not known to lie outside (0,1) and both end points are '
+      'evaluated, and a degenerate leading coefficient falls back to the numeric derivative roots; the generic Bezier box hands the '
+      'real/imag derivative polynomials to the root finder with a filter no stricter than 0<r<1; producers return '
+      '(min re, max re, min im, max im) and the consumers (boxes_intersect, box_area, bbox2path, is_contained_by, disvg) use that order; '
+      'Arc.bbox: the critical angles annihilate x\'/y\' (general rotation and the axis-aligned special cases), the candidate parameters '
+      'solve angle(t) = atan + k*pi for every k in -3..3, the end points are candidates; Path.bbox / big_bounding_box are slot-wise '
+      'unions. Not decided: that numeric root finding returns the roots (C19), rounding.',
+      TRUST + ' Documented ranges theta in [-180,180], delta in [-360,360].', 'DESIGN.md section 3 C08')
+
+claim('C11', 'other',
+      'abstract interpretation with hooked solvers (operand-order tables for all 11 delegating class pairs), sign-label reasoning on the '
+      'bounding-box pre-filters, rational identities (Line-Line), polynomial identities for the u1transform branch',
+      'Thin by nature. Decides: every X.intersect(Y) returns pairs (t on self, t on other) whatever the operand order of the delegate; '
+      'the bounding-box pre-filters return [] only on paths that know the boxes to be strictly disjoint; the Line-Line closed form '
+      'satisfies the intersection equations identically and both parameters are range-tested; in the Arc-Bezier branch u1transform maps '
+      'the arc to the unit circle and is affine, the polynomial handed to the root finder is |u1transform(B(t))|^2 - 1, each returned t1 is '
+      'the phase2t image of its own t2 and both are range-tested; Path.intersect attaches each parameter to its own path/segment and maps '
+      'through t2T. Not decided: accuracy of subdivision and of the arc solvers (1e-5 / 1e-3).', TRUST, 'DESIGN.md section 3 C11')
+
+claim('C12', 'other',
+      'abstract interpretation of Arc.phase2t with a hooked nested helper and mod/floordiv atoms, AST/CFG provenance (index domains), '
+      'closed-interval filter rules, shared cubic-extrema completeness obligation',
+      'Thin by nature: only necessary conditions, each of which has produced a real finding or catches a seeded break. Decides: phase2t '
+      'hands _deg the lower end of the angular interval for both signs of delta (F09), _deg shifts by floor(limit/360)*360, '
+      't == (degs-theta)/delta; index domains of the de-duplication steps in polyroots (F10) and Path.intersect; closed filters '
+      '[0,1] / [0,line_length] and single visit per root in the line solver; completeness of the cubic extrema used to prune the '
+      'subdivision. NOT decided: completeness of recursive subdivision / numeric root finding - the heart of C12.',
+      TRUST, 'DESIGN.md section 3 C12')
+
+claim('C13', 'other',
+      'abstract interpretation with hooked root finder and min/max selectors; rational identities and 4-path decision table for '
+      'Line.radialrange; exhaustive enumeration of the weak orderings seen by the arg-min/arg-max fold',
+      'Decides: bezier_radialrange (quadratic, cubic) takes the roots of d/dt|B(t)-z|^2, evaluates (distance, t) at {0,1} and the roots and '
+      'selects by distance; Line.radialrange\'s closed-form t is the critical point and its decision table is clamp / farther end on all '
+      'four paths; Path.radialrange is a correct arg-min/arg-max fold (with index of the same iteration) on all 54 weak orderings of three '
+      'segments including ties and zero distances; closest/farthest_point_in_path pick slots 0/1. Not decided: completeness of the root '
+      'finder (C19).', TRUST, 'DESIGN.md section 3 C13')
+
 ALL = ['C%02d' % i for i in range(1, 21)]
 for pid in ALL:
     if pid not in CLAIMED and pid not in NOT_APPLICABLE:
